@@ -65,7 +65,7 @@ CHECKS.update({
    note=SYSNOTE,
    tech="TLA+ implementation-shaped model (Dispatch.tla) checked by TLC, its behaviours replayed on the real code; TLA+ contract monitor + TLC trace validation of real executions under a deterministic scheduler"),
  "C17": dict(engine="tlc+h_sys", cat=MC, ref="4 C17",
-   text="Quill.tla checked exhaustively for small configurations (per-action checks of this property, I=>A on every exported behaviour, schedules replayed on the real code with state comparison); plus executions with create/get/remove/remove_blocking/re-create cycles and shared sinks validated by TLC against QuillContract: nothing logged before removal is lost, sinks destroyed only when unreferenced, blocking removal returns after completion, idempotent create/get",
+   text="Quill.tla (pipeline with logger removal) and Registry.tla (logger/sink registries, object lifetimes, async and blocking removal, create/get by name, failing flush) checked exhaustively for small configurations (I=>A on every exported behaviour, every transition replayed on the real code with per-step comparison); plus executions with create/get/remove/remove_blocking/re-create cycles and shared sinks validated by TLC against QuillContract: nothing logged before removal is lost, sinks destroyed only when unreferenced, blocking removal returns after completion, idempotent create/get",
    note=SYSNOTE,
    tech="TLA+ contract monitor + TLC trace validation of real executions under a deterministic scheduler"),
  "C20": dict(engine="tlc+h_sys", cat=MC, ref="4 C20",
